@@ -83,6 +83,7 @@ EXPORT errno_t _strremovews_s_chk(char *dest, rsize_t dmax,
     char *orig_dest;
     char *orig_end;
     rsize_t orig_dmax;
+    char *base;
 
     CHK_DEST_NULL("strremovews_s")
     CHK_DMAX_ZERO("strremovews_s")
@@ -102,6 +103,7 @@ EXPORT errno_t _strremovews_s_chk(char *dest, rsize_t dmax,
     }
 
     orig_dest = dest;
+    base = dest;
     orig_dmax = dmax;
 
     /*
@@ -146,7 +148,9 @@ EXPORT errno_t _strremovews_s_chk(char *dest, rsize_t dmax,
      * strip trailing whitespace
      */
     dest = orig_end;
-    while ((*dest == ' ') || (*dest == '\t')) {
+    /* a string of blanks only: stop at its first character, do not walk on
+       into whatever precedes dest */
+    while (dest >= base && ((*dest == ' ') || (*dest == '\t'))) {
         *dest = '\0';
         dest--;
     }
